@@ -147,6 +147,38 @@ def file_image_check(ctx, stats, lmq, exe, sess, m, typ, extra, iv, binf, base, 
         ctx.file_image_breaks = getattr(ctx, "file_image_breaks", []) + [("correspondence:file-image:" + typ, what, rq)]
 
 
+def size_stream(ctx, stats, lmq, exe, problems):
+    """Size()/SetupMemory agreement: TrieSearch<DontQuantize, DontBhiksha|ArrayBhiksha>::Size and SortedVocabulary::Size of the real
+    code against the size model of coq/C04/TrieSize.v (proved equal to the bytes the file model lays out: C04_trie_image_size) on
+    random count vectors -- orders 2..6, counts from 0 to 2^38 with small, power-of-two and flip-point values, every
+    pointer_bhiksha_bits the uint8 can hold."""
+    rng = ctx.rng
+    n = 150 if ctx.quick else 1500
+    def count():
+        k = rng.below(6)
+        if k == 0: return rng.below(4)
+        if k == 1: return rng.below(300)
+        if k == 2: return (1 << rng.range(1, 38)) + rng.range(-2, 2)
+        if k == 3: return rng.below(1 << 20)
+        if k == 4: return 64 * rng.range(1, 40) + rng.range(-1, 1)
+        return rng.below(1 << 38)
+    ls = []
+    for i in range(n):
+        order = rng.range(2, 6)
+        counts = [max(1, count())] + [max(0, count()) for _ in range(order - 1)]
+        bits = rng.choice([0, 1, 2, 3, 5, 8, 16, 22, 31, 32, 57, 63, 64, 100, 255]) if rng.chance(1, 2) else rng.below(256)
+        ls.append("TSZ %d %d %s" % (rng.below(2), bits, ",".join(str(c) for c in counts)))
+    rc, out, err = vlib.sh([lmq, "--sizes"], input=("\n".join(ls) + "\n").encode(), timeout=120)
+    io = out.split("\n")
+    mo = vlib.run_lines(exe, ls)
+    stats["impl_runs"] += 1
+    stats["size_cases"] = len(ls)
+    for c, a, b in zip(ls, io, mo):
+        if a != b:
+            ctx.file_image_breaks = getattr(ctx, "file_image_breaks", []) + [("correspondence:trie-size", "%s: Size() of the implementation %s, of the size model %s" % (c, a, b), {"case": c, "stream": "sizes"})]
+            break
+
+
 def big_file_stream(ctx, stats, lmq, problems):
     """files whose search structure exceeds 2 MiB (the aligned huge-page allocation path of util/mmap.cc, sizes that are not page
     multiples): a dense model written by both methods, with and without the strings, two probing multipliers and the trie, loaded back
@@ -307,6 +339,7 @@ def run(ctx):
             break
     if not ctx.replay_model:
         big_file_stream(ctx, stats, lmq, problems)
+        size_stream(ctx, stats, lmq, exe, problems)
     ctx.count("evaluations", stats["impl_runs"])
     ctx.coverage["models"] = nmodels
     ctx.coverage["distinct_nontrivial"] = nontrivial
